@@ -907,7 +907,147 @@ class C07(Prop):
                     res.adequacy.append(f"{short}: std {I.get('std')} spec {sf}")
 
 
-REGISTRY = {"C05": C05(), "C07": C07(), "C03": C03(), "C02": C02(), "C20": C20(), "C09": C09(), "C10": C10(), "C14": C14(), "C12": C12()}
+# ------------------------------------------------------------------------------------------
+# C08
+
+class C08(Prop):
+    rule = ("f64: every biased exponent 0..2046 x 3 (quick) / 6 (thorough) mantissas incl. 0, 1, all-ones, both signs, the neighbours of every "
+            "power of ten 1e-320..1e308, special values, random finite doubles; f32: every exponent x {0,1,max} mantissa and random values "
+            "(all 2^32 in the thorough tier, harness-side only); integers: all i8/u8, every (37th in quick) i16/u16, boundaries and random "
+            "i32/u32/i64/u64/i128/u128; raw numbers: fixed and generated literals, bare and quoted, incl. ungrammatical ones; "
+            "non-trivial = the value is not a one-digit integer")
+    trusted = ["ryu / itoa are assumed to print a shortest round-tripping / canonical decimal; what is checked per case: the text is one JSON "
+               "number token (Spec.number) whose exact value (Spec.Num, big integers) rounds to the same bits, and the library reads it back"]
+    assumptions = ["reading back rests on C07 (rounding back end validated by correspondence)"]
+
+    def explore(self, ctx, res):
+        name = "c08"
+        cases_path = generate(ctx, name)
+        impl_path = cases_path + ".impl"
+        rc, err = ctx["run_lines"](ctx["vh"], [name, "run"], cases_path, impl_path)
+        with open(cases_path) as f:
+            cases = f.read().splitlines()
+        with open(impl_path, errors="replace") as f:
+            impl = f.read().splitlines()
+        if rc != 0 or len(impl) != len(cases):
+            idx = min(len(impl), len(cases) - 1)
+            res.oracle_failures.append(dict(key="c08:process-abort", case=cases[idx], detail=f"harness died after {len(impl)} cases: {err[-300:]}"))
+        n = min(len(impl), len(cases))
+        qp = cases_path + ".query"
+        qmap = []
+        with open(qp, "w") as q:
+            for i in range(n):
+                I = ctx["parse_fields"](impl[i])
+                kind = cases[i].split(" ")[1]
+                for fld in ("text", "domtext", "raw"):
+                    v = I.get(fld)
+                    if v and re.fullmatch(r"[0-9a-f]+|-", v):
+                        k = {"f64": "f", "f32": "g", "int": "i", "raw": "f"}[kind]
+                        q.write(f"c08v {k} {v}\n")
+                        qmap.append((i, fld))
+        outs = []
+        if ctx["driver"]:
+            ctx["run_lines"](ctx["driver"], [], qp, qp + ".out")
+            with open(qp + ".out", errors="replace") as f:
+                outs = f.read().splitlines()
+        V = {}
+        for (i, fld), o in zip(qmap, outs):
+            V[(i, fld)] = ctx["parse_fields"](o)
+        for i in range(n):
+            res.evaluations += 1
+            case = cases[i]
+            p = case.split(" ")
+            kind = p[1]
+            I = ctx["parse_fields"](impl[i])
+            if len(res.samples) < 6 and i % max(1, n // 6) == 0:
+                res.samples.append({"case": case, "impl": impl[i][:200], "spec": V.get((i, "text")) or V.get((i, "raw"))})
+            if impl[i] == "PANIC":
+                res.oracle_failures.append(dict(key=f"C08|{kind}|panic", case=case, detail="panicked"))
+                continue
+
+            def fail(cls, detail):
+                res.oracle_failures.append(dict(key=f"C08|{kind}|{cls}", case=case, detail=detail))
+
+            if kind in ("f64", "f32"):
+                bits = p[2]
+                if len(bits.strip("08")) > 0:
+                    res.nontrivial(case)
+                if I.get("text") in ("ERR", None):
+                    fail("serialize-error", impl[i][:100]); continue
+                sv = V.get((i, "text"), {})
+                if sv.get("gram") != "A":
+                    fail("text-not-a-json-number", unhex(I["text"]).decode("latin1"))
+                elif sv.get("val") != bits:
+                    fail("text-denotes-another-value", f"{unhex(I['text']).decode('latin1')} denotes {sv.get('val')}")
+                if I.get("back") != bits:
+                    fail("does-not-read-back-bit-identically", f"text {unhex(I['text']).decode('latin1')} back {I.get('back')}")
+                if kind == "f64":
+                    if I.get("domback") != "F" + bits:
+                        fail("dom-round-trip-differs", f"domtext {unhex(I.get('domtext','-')).decode('latin1')} back {I.get('domback')}")
+                    if I.get("domtext") != I.get("text") or I.get("vecsame") != "true":
+                        fail("display-to_string-to_vec-disagree", impl[i][:160])
+            elif kind == "int":
+                val = p[3]
+                if len(val) > 1:
+                    res.nontrivial(case)
+                sv = V.get((i, "text"), {})
+                if sv.get("gram") != "A" or sv.get("val") != val:
+                    fail("text-is-not-the-canonical-decimal", f"{I.get('text')} spec {sv}")
+                if I.get("back") != val:
+                    fail("does-not-read-back", impl[i][:120])
+                if "dom" in I and I["dom"] not in ("U" + val, "I" + val):
+                    fail("dom-round-trip-differs", impl[i][:120])
+            elif kind == "raw":
+                lit = unhex(p[2])
+                res.nontrivial(case)
+                # a raw number holds a grammatical literal, verbatim
+                q_ = ctx  # noqa
+                r = I.get("raw")
+                if r == "R":
+                    # rejected: fine when the literal is ungrammatical; the grammar verdict comes from the driver on the literal
+                    res.distribution["raw-rejected"] += 1
+                    gv = None
+                else:
+                    sv = V.get((i, "raw"), {})
+                    if sv.get("gram") != "A":
+                        fail("holds-ungrammatical-literal", f"{lit!r} -> {r}")
+                    src_lit = lit if p[3] == "q" else lit.strip(b" \t\r\n")
+                    if unhex(r) != src_lit:
+                        fail("not-the-source-literal", f"{lit!r} -> {unhex(r)!r}")
+                    if I.get("ser") != r:
+                        fail("not-serialized-verbatim", impl[i][:120])
+                    if I.get("acc") != "true":
+                        fail("accessors-disagree-with-parsing-the-literal", impl[i][:120])
+        # completeness for raw numbers: every grammatical literal must be accepted (second query)
+        rq = cases_path + ".rawq"
+        idxs = []
+        with open(rq, "w") as q:
+            for i in range(n):
+                p = cases[i].split(" ")
+                if p[1] == "raw" and p[2] != "-":
+                    q.write(f"c08v f {p[2]}\n")
+                    idxs.append(i)
+        if ctx["driver"] and idxs:
+            ctx["run_lines"](ctx["driver"], [], rq, rq + ".out")
+            with open(rq + ".out", errors="replace") as f:
+                routs = f.read().splitlines()
+            for i, o in zip(idxs, routs):
+                g = ctx["parse_fields"](o).get("gram")
+                I = ctx["parse_fields"](impl[i])
+                if g == "A" and I.get("raw") == "R":
+                    res.oracle_failures.append(dict(key="C08|raw|rejects-grammatical-literal", case=cases[i], detail=str(unhex(cases[i].split(' ')[2]))))
+        if ctx["tier"] == "thorough":
+            pr = subprocess.run([ctx["vh"], "c08", "allf32"], stdout=subprocess.PIPE, env=ctx["env"])
+            line = pr.stdout.decode().strip()
+            res.notes.append(line)
+            m_ = re.search(r"failures=(\d+) first=(\S+)", line)
+            if m_:
+                res.evaluations += 2 ** 32 - 2 ** 24
+                if int(m_.group(1)) > 0:
+                    res.oracle_failures.append(dict(key="C08|f32|does-not-read-back-bit-identically", case=f"c08 f32 {m_.group(2)}", detail=line))
+
+
+REGISTRY = {"C05": C05(), "C08": C08(), "C07": C07(), "C03": C03(), "C02": C02(), "C20": C20(), "C09": C09(), "C10": C10(), "C14": C14(), "C12": C12()}
 for _k, _v in REGISTRY.items():
     _v.pid = _k
 
